@@ -32,15 +32,24 @@ def shapeOk (route exp rem : Route) : Bool :=
 
 def lastStopOf (r : Route) : Option Cell := r.getLast?.map (·.stop)
 
-/-- travel times of the fully driven links (all but a split last one) fit in the step -/
-def timeOk (dt : Nat) (exp rem : Route) : Bool :=
+/-- the driven links fit in the step: the fully driven ones by their travel times; a split last
+    link by the exact time its driven part needs, up to the snapping of the split point to a cell
+    (two cell edge lengths at the link's speed) -/
+def timeOk (dt : Nat) (exp rem : Route) (cellKm : Rat) (checkPart : Bool) : Bool :=
   let split := match exp.getLast?, rem.head? with
     | some a, some b => a.id == b.id && a.stop == b.start   -- the same link id on both sides: it was split
     | _, _ => false
   let fulls := if split then exp.dropLast else exp
-  fulls.foldl (fun a l => a + l.travelTime) 0 ≤ (dt : Int)
+  let fullTime : Int := fulls.foldl (fun a l => a + l.travelTime) 0
+  let partOk : Bool := match split && checkPart, exp.getLast? with
+    | true, some a =>
+      if a.speed > 0 then
+        decide (a.dist / a.speed * 3600 ≤ ((dt : Int) - fullTime : Int) + 2 * cellKm / a.speed * 3600 + 1)
+      else true
+    | _, _ => true
+  decide (fullTime ≤ (dt : Int)) && partOk
 
-def violTraversal (route : Route) (dt : Nat) (exp rem : Route) (km : Rat) : List String :=
+def violTraversal (route : Route) (dt : Nat) (exp rem : Route) (km : Rat) (cellKm : Rat := 6 / 10000) : List String :=
   (if exp.isEmpty then [] else
     (if connected route then
       (if connected rem then [] else ["C06/remaining-disconnected| remaining route is not connected"]) ++
@@ -57,6 +66,8 @@ def violTraversal (route : Route) (dt : Nat) (exp rem : Route) (km : Rat) : List
    | some a => if a.start == a.stop then ["C06/no-progress| partial traversal snapped back to the start cell of the link: the vehicle does not advance"] else []
    | none => []) ++
   (if ratClose km (exp.foldl (fun a l => a + l.dist) 0) then [] else ["C06/odometer| booked distance differs from the driven links"]) ++
-  (if timeOk dt exp rem then [] else ["C06/time-budget| driven links need more than the step's time"])
+  -- (the driven part of a split link is judged only on connected estimates: a generated link whose
+  --  start was moved has a declared length shorter than its geometry)
+  (if timeOk dt exp rem cellKm (connected route) then [] else ["C06/time-budget| driven links need more than the step's time (a vehicle moved farther than speed x time allows)"])
 
 end Hive
